@@ -97,6 +97,7 @@ V['C05'] = [
     ('operands swapped', FD, 'return f(x0i + h) - f_x0i', 'return f(h + x0i) - f_x0i', 'S', None),
     ('central skips f(x-h) when f(x+h) is NaN', FD, '        return (f(x0i + h) - f(x0i - h)) / 2.0', '        f_plus = f(x0i + h)\n        if np.all(np.isnan(f_plus)):\n            return f_plus\n        return (f_plus - f(x0i - h)) / 2.0', 'F', 'R-ADMISSIBLE'),
     ('central evaluates both points before the NaN test', FD, '        return (f(x0i + h) - f(x0i - h)) / 2.0', '        f_plus, f_minus = f(x0i + h), f(x0i - h)\n        if np.all(np.isnan(f_plus)):\n            return f_plus\n        return (f_plus - f_minus) / 2.0', 'S', None),
+    ('central falls back to a one-sided formula when f raises', FD, '        return (f(x0i + h) - f(x0i - h)) / 2.0', '        try:\n            return (f(x0i + h) - f(x0i - h)) / 2.0\n        except ValueError:\n            return (4 * f(x0i + h) - f(x0i + 2 * h) - 3 * f(x0i)) / 2.0', 'F', 'R-ADMISSIBLE'),
 ]
 V['C07'] = [
     ('r_matrix exponent shifted', EXT, 'r_mat[:, 1:] = (1.0 / step_ratio) ** (i * (step * j + order))', 'r_mat[:, 1:] = (1.0 / step_ratio) ** (i * (step * (j + 1) + order))', 'F', 'R-EXTRAP'),
@@ -106,6 +107,9 @@ V['C07'] = [
     ('imaginary part with reversed rule', EXT, '+ 1j * convolve1d(seq.imag, rule, **kwds)', '+ 1j * convolve1d(seq.imag, rule[::-1], **kwds)', 'F', 'R-EXTRAP'),
     ('abs removed', EXT, '        err = np.abs(np.diff(new_sequence, axis=0)) * fact', '        err = np.diff(new_sequence, axis=0) * fact', 'F', 'R-NONNEG'),
     ('ratio power rewritten', EXT, 'r_mat[:, 1:] = (1.0 / step_ratio) ** (i * (step * j + order))', 'r_mat[:, 1:] = step_ratio ** (-i * (step * j + order))', 'S', None),
+    ('1-d sequence promoted to one row', EXT, '    def __call__(self, sequence, steps):\n        num_steps = sequence.shape[0]', '    def __call__(self, sequence, steps):\n        sequence, steps = np.atleast_2d(sequence, steps)\n        num_steps = sequence.shape[0]', 'F', 'R-AXIS0'),
+    ('error scale from dot(rule, rule)', EXT, 'cov1 = np.sum(np.abs(rule) ** 2)', 'cov1 = np.dot(rule, rule)', 'F', 'R-NONNEG'),
+    ('error scale from vdot(rule, rule)', EXT, 'cov1 = np.sum(np.abs(rule) ** 2)', 'cov1 = np.real(np.vdot(rule, rule))', 'S', None),
 ]
 V['C08'] = [
     ('nanmin over the whole table', LIM, 'min_errors = np.nanmin(errors, axis=0)', 'min_errors = np.nanmin(errors)', 'F', None),
@@ -129,6 +133,7 @@ V['C09'] = [
     ('cache via setdefault', FD, '            FD_RULES[(step_ratio, parity, num_terms)] = fd_rules', '            FD_RULES.setdefault((step_ratio, parity, num_terms), fd_rules)', 'S', None),
     ('base step scaled in place', SG, 'base_step, step_ratio = self.base_step * self.step_nom, self.step_ratio', 'base_step, step_ratio = self.base_step, self.step_ratio\n        base_step *= self.step_nom', 'F', 'R-NOMUTATE'),
     ('cache entry inverted in place after the store', FD, '            fd_mat = self._fd_matrix(step_ratio, parity, num_terms)\n            fd_rules = linalg.pinv(fd_mat)\n            FD_RULES[(step_ratio, parity, num_terms)] = fd_rules', '            fd_rules = self._fd_matrix(step_ratio, parity, num_terms)\n            FD_RULES[(step_ratio, parity, num_terms)] = fd_rules\n            fd_rules[...] = linalg.pinv(fd_rules)', 'F', 'R-CACHEKEY'),
+    ('method setter normalises the order', CORE, '    def method(self, method):\n        self.fd_rule.method = method\n', '    def method(self, method):\n        self.fd_rule.method = method\n        self.fd_rule.order = self.fd_rule.method_order\n', 'F', 'R-HISTORY'),
 ]
 V['C10'] = [
     ('Min generator ascending', SG, '        return range(self.num_steps - 1, -1, -1)', '        return range(self.num_steps)', 'F', None),
@@ -139,6 +144,7 @@ V['C10'] = [
     ('min_num_steps too small', SG, '        num_steps = int(n + order - 1)\n        divisor', '        num_steps = int(n + order - 1) // 3\n        divisor', 'F', None),
     ('ratio default as conditional', SG, 'step_ratio = {1: 2.0}.get(self._state.n, 1.6)', 'step_ratio = 2.0 if self._state.n == 1 else 1.6', 'S', None),
     ('zero test on the base step only', SG, '        for i in self._range():\n            step = base_step * step_ratio ** (sgn * i + offset)\n            if (np.abs(step) > 0).all():\n                yield step', '        if not (np.abs(base_step) > 0).all():\n            return\n        for i in self._range():\n            yield base_step * step_ratio ** (sgn * i + offset)', 'F', 'R-ZEROFILTER'),
+    ('make_exact before the nominal step', SG, 'base_step, step_ratio = self.base_step * self.step_nom, self.step_ratio', 'base_step, step_ratio = self.base_step, self.step_ratio', 'F', None),
 ]
 V['C11'] = [
     ('revert fix 4107309 (Jacobian guard)', CORE, "        if self.method in ['complex', 'multicomplex']:\n            self._raise_error_if_any_is_complex(x_i, fxi)\n        results = [diff(f, fxi, x_i, h) for h in steps]", '        results = [diff(f, fxi, x_i, h) for h in steps]', 'F', 'R-COMPLEXGUARD'),
@@ -149,6 +155,8 @@ V['C11'] = [
     ('fd_derivative length guard dropped', FB, "    _assert(num_x == len(fx), 'len(x) must be equal len(fx)')\n", '', 'F', 'R-MISUSE'),
     ('guard as if/raise', FB, "    _assert(n < num_x, 'len(x) must be larger than n')\n    _assert(num_x == len(fx)", "    if not n < num_x:\n        raise ValueError('len(x) must be larger than n')\n    _assert(num_x == len(fx)", 'S', None),
     ('complex guard after the f(x) shortcut', CORE, "        if self.method in ['complex', 'multicomplex']:\n            f_x = f(x)\n            self._raise_error_if_any_is_complex(x, f_x)\n            return f_x\n        if self.fd_rule.eval_first_condition or self.full_output:\n            return f(x)", "        if self.fd_rule.eval_first_condition or self.full_output:\n            return f(x)\n        if self.method in ['complex', 'multicomplex']:\n            f_x = f(x)\n            self._raise_error_if_any_is_complex(x, f_x)\n            return f_x", 'F', 'R-COMPLEXGUARD'),
+    ('Residue order default by truthiness', LIM, '        if order is None:\n            # MethodOrder will always = pole_order + 2\n            order = pole_order + 2', '        order = order or pole_order + 2', 'F', 'R-MISUSE'),
+    ('limit steps resized to the data', LIM, '        one = np.ones(original_shape)\n        h = np.vstack([np.ravel(one * step) for step in steps])\n        _assert(f_del.size == h.size', '        h = np.vstack([np.ravel(np.resize(step, original_shape)) for step in steps])\n        _assert(f_del.size == h.size', 'F', 'R-MISUSE'),
 ]
 V['C12'] = [
     ('revert fix 2b04784 (log1p)', MC, '        z1, z2 = self.z1, self.z2\n        # log(mod_c(1 + z)) = 0.5 * log((1 + z1)**2 + z2**2)\n        return Bicomplex(0.5 * np.log1p(z1 * (2 + z1) + z2 * z2), self.arg_c1p())', '        return Bicomplex(np.log1p(self.mod_c()), self.arg_c1p())', 'F', None),
@@ -197,6 +205,7 @@ V['C15'] = [
     ('c_1 .. renamed', FB, '        c_1 = c_2\n', '        c_1 = c_2 * 1\n', 'S', None),
     ('fd_weights memoised by offsets', FB, '    return fd_weights_all(x, x0, n)[-1]', "    key = (n,) + tuple(np.subtract(x, x0).tolist())\n    if key not in _MEMO:\n        _MEMO[key] = fd_weights_all(x, x0, n)[-1]\n    return _MEMO[key].copy()\n\n\n_MEMO = {}", 'F', 'R-MEMO'),
     ('fd_weights tolerant table fast path', FB, '    return fd_weights_all(x, x0, n)[-1]', "    tab = CENTRAL_WEIGHTS_AND_POINTS.get((n, len(x)))\n    if tab is not None:\n        step = (x[-1] - x[0]) / (len(x) - 1)\n        if np.allclose(x, x0 + step * tab[1]):\n            return tab[0] / step ** n\n    return fd_weights_all(x, x0, n)[-1]", 'F', 'R-ROW'),
+    ('fd_weights_all x0 default by truthiness', FB, '    m = len(x)\n    _assert(n < m', '    x0 = x0 or np.mean(x)\n    m = len(x)\n    _assert(n < m', 'F', None),
 ]
 V['C16'] = [
     ('interior window one short', FB, 'fx[i - mm:i + mm + 1])', 'fx[i - mm:i + mm])', 'F', None),
@@ -204,6 +213,7 @@ V['C16'] = [
     ('interior range short', FB, '    for i in range(mm, num_x - mm):', '    for i in range(mm, num_x - mm - 1):', 'F', 'R-COVER'),
     ('derivative order dropped', FB, 'du[i] = np.dot(fd_weights(x[:size], x0=x[i], n=n), fx[:size])', 'du[i] = np.dot(fd_weights(x[:size], x0=x[i]), fx[:size])', 'F', 'R-WINDOW'),
     ('interior weights reused when spacing is close', FB, "    for i in range(mm, num_x - mm):\n        du[i] = np.dot(fd_weights(x[i - mm:i + mm + 1], x0=x[i], n=n),\n                       fx[i - mm:i + mm + 1])", "    step = np.diff(x)\n    weights = step0 = None\n    for i in range(mm, num_x - mm):\n        step_i = step[i - mm:i + mm]\n        if weights is None or not np.allclose(step_i, step0):\n            weights = fd_weights(x[i - mm:i + mm + 1], x0=x[i], n=n)\n            step0 = step_i\n        du[i] = np.dot(weights, fx[i - mm:i + mm + 1])", 'F', None),
+    ('fd_weights_all x0 default by truthiness', FB, '    m = len(x)\n    _assert(n < m', '    x0 = x0 or np.mean(x)\n    m = len(x)\n    _assert(n < m', 'F', 'R-EXACT'),
 ]
 V['C17'] = [
     ('reset of _num_changes removed', FB, '        self._num_changes = 0\n        return m, self._mvec', '        return m, self._mvec', 'F', None),
